@@ -50,6 +50,10 @@ def run(ctx, monitors, n_docs, n_ra=0.3):
         if bad:
             ctx.divergences.append(("search-contract", "a regex match violates the span contract assumed by the theorems: "
                                     + repr(bad[0])[:300], dict(text=d)))
+        badt = P.check_tokens(run["words"])
+        if badt:
+            ctx.divergences.append(("token-contract", "a special token violates the regex facts assumed by the theorems: "
+                                    + repr(badt[0])[:300], dict(text=d)))
         run_ra = None
         if rng.random() < n_ra or d in CORPUS:
             run_ra = P.run_document(d, True)
